@@ -26,11 +26,11 @@ Definition created_by_add (c : cfgT) (x : layer) (p : bytes) (n : node) : bool :
   | Link _ => false
   end.
 
-Definition step_spec (c : cfgT) (w : wobs) (s : step) : bool :=
-  match s_cmd s with
+Definition step_spec (c : cfgT) (w : wobs) (v : sview) : bool :=
+  match v_cmd v with
   | CRemove n false =>
-    if negb (plain_env (s_env s)) then true else
-    let f := wo_fs w in let f' := wo_fs (after w s) in
+    if negb (plain_env (v_env v)) then true else
+    let f := wo_fs w in let f' := wo_fs (v_after v) in
     match layer_named c f n with
     | None => true
     | Some x =>
@@ -45,7 +45,7 @@ Definition step_spec (c : cfgT) (w : wobs) (s : step) : bool :=
                || opt_beq node_beq (fs_get f' (removed ++ rel_suffix d (fst e))) (Some (snd e))
         end) user_data
       (* deleted outright only if nothing beyond what add created *)
-      && (match s_res s, user_data with
+      && (match v_res v, user_data with
           | ROk, _ :: _ => exists_ f' removed
           | _, _ => true end)
       (* an existing <name>~removed is never overwritten *)
@@ -55,7 +55,7 @@ Definition step_spec (c : cfgT) (w : wobs) (s : step) : bool :=
   | _ => true
   end.
 
-Definition spec (c : case) : bool := along (step_spec (c_cfg c)) (w0 c) (c_steps c).
+Definition spec (c : case) : bool := along_views (step_spec (c_cfg c)) (w0 c) (c_steps c).
 Definition wf := LC.wf.
 Definition kf (c : case) : N := 0.
 Definition verdict (c : case) : N := mkverdict (wf c) (LC.corr c) (spec c) (kf c).
